@@ -132,6 +132,11 @@ def build_blocks(edzed, cfg, hist, fail_start=False):
             kw[f"on_exit_{st}"] = edzed.Event(sink, 'exit')
         return kw
     blocks = {}
+    if cfg.get('of_first'):
+        # created (= started) before every other block: when a later start() fails, this block
+        # is stopped and its stop_data result goes to 'fin', which was never started
+        blocks['of'] = edzed.OutputFunc('of', func=lambda v: v, stop_data={'value': 'final'},
+                                        on_success=edzed.Event('fin', 'put'), on_error=None)
     blocks['inp'] = edzed.Input('inp', initdef='i0', persistent=True, allowed=None, **exp('inp'))
     blocks['inp_ns'] = edzed.Input('inp_ns', initdef='n0', persistent=True, sync_state=False,
                                    **exp('inp_ns'))
@@ -147,8 +152,9 @@ def build_blocks(edzed, cfg, hist, fail_start=False):
     blocks['plain'] = edzed.Input('plain', initdef=0)       # not persistent
     # an event handled during the clean-up (stop_data of an output block) by a persistent block
     blocks['fin'] = edzed.Input('fin', initdef='running', persistent=True)
-    blocks['of'] = edzed.OutputFunc('of', func=lambda v: v, stop_data={'value': 'final'},
-                                    on_success=edzed.Event('fin', 'put'), on_error=None)
+    if not cfg.get('of_first'):
+        blocks['of'] = edzed.OutputFunc('of', func=lambda v: v, stop_data={'value': 'final'},
+                                        on_success=edzed.Event('fin', 'put'), on_error=None)
     if fail_start == 'first_step':
         # fails in the window between the start() calls and the initialisation:
         # the main task raises in its very first step
@@ -692,7 +698,7 @@ def random_case(rng):
             expiration[name] = rng.choice([0, -1])
     cfg = {'expiration': expiration, 'prev_stop_time': rng.random() < 0.7,
            'td_times': rng.choice(TD_CHOICES), 'ts_span': rng.choice(TS_CHOICES),
-           't_T2': rng.choice([3.0, 8.0])}
+           't_T2': rng.choice([3.0, 8.0]), 'of_first': rng.random() < 0.5}
     steps = []
     for _ in range(rng.randint(2, 8)):
         if rng.random() < 0.07:
